@@ -1,18 +1,58 @@
 """C10 — schema and resolver declaration files describe exactly the schema."""
 import vlib
 
+# which known-finding class a failing case of each name-check kind belongs to; the three checks are
+# separate (tiny) cases, so a failure of one is never attributed to another
+KIND_CLASS = {
+    "keyword-names": "ts-keyword-type-name",
+    "scalar-identifier-capture": "tmp-prefix-capture",
+    "resolver-file-names": "resolver-file-name-capture",
+}
+KEYWORDS = {"null", "undefined", "never", "unknown"}
+
 
 def classify(case, kind):
+    if kind != "prop":
+        return set()
+    k = case.get("kind")
+    declared = set(case.get("declared", []))
+    if k == "keyword-names" and declared & KEYWORDS:
+        return {KIND_CLASS[k]}
+    if k == "scalar-identifier-capture" and any(d.startswith("__tmp_") for d in declared):
+        # only the capture by a `__tmp_` local is known; a capture by an un-renamed name would be new
+        import re
+        texts = []
+        for v in case.get("options", {}).get("scalarTypes", {}).values():
+            texts += [v] if isinstance(v, str) else list(v.values())
+        idents = set(i for t in texts for i in re.findall(r"[A-Za-z_][A-Za-z0-9_]*", t))
+        captured = declared & idents
+        if captured and all(c.startswith("__tmp_") for c in captured):
+            return {KIND_CLASS[k]}
+        return set()
+    if k == "resolver-file-names":
+        o = case.get("options", {})
+        reserved = {"Context", "Omit", "Pick", "Promise", "GraphQLResolveInfo", "__Resolver", "__TypeResolver",
+                    o.get("schemaRootNamespace"), o.get("rootResolverType"), o.get("resolverOutputType")}
+        if declared & reserved:
+            return {KIND_CLASS[k]}
     return set()
 
 
 def run(ctx):
     return vlib.standard_check(
         ctx,
-        targets=["C10/Corr.vo"],
-        pinned=None,
+        targets=["C10/Properties.vo", "C10/Examples.vo", "C10/Corr.vo"],
+        pinned="C10/Pinned.v",
         binname="c10",
         classify=classify,
-        extra_trusted=[],
-        assumptions=[],
+        extra_trusted=[
+            "TypeScript reading of the emitted types: Ts/TsDen.v has_type_b (exact object reading; a scalar's configured text is 'string'/'number'/'boolean' or an opaque atom); TypeScript scoping is modelled as: a name used inside a namespace refers to the declaration of that name in the namespace if there is one (C10/Spec.v ns_env)",
+            "HashMap/HashSet of the printers' context are modelled as association lists / lists (only get/contains are used; C17 covers iteration order)",
+            "ast_to_type_system / Schema::get_type / iter_types as used by the printers: first definition of a name wins, insertion order (C10/Model.v get_type, iter_types)",
+            "the harness reads the names the implementation declares off its recorded writer operations (write_for following write_for 'export type '/'type ')",
+        ],
+        assumptions=[
+            "C10_alias_exact is stated for schemas satisfying the computable guard wf_schema (unique type names, no '__' names, every scalar configured, every referenced type defined and of the right kind: what `check` enforces plus scalar configuration); C10_schema_decls_total shows the printer cannot fail or panic under that guard",
+            "C10_alias_exact: whenever has_type_b decides (Some b) it decides like Ref; that it does decide for sufficient fuel is evaluated on the generated value domain on every run, not proved",
+        ],
     )
